@@ -223,6 +223,7 @@ def rule_r1(ctx) -> List[R.Inst]:
     for n in walk_no_nested(rm.node):
         if isinstance(n, ast.Call) and call_name(n) == "unpack" and len(n.args) == 2:
             a0, a1 = n.args
+            a1 = _resolve_local(rm.node, a1)        # (the slice named first: chunk = b[i:i + size]; unpack(fmt, chunk))
             le = (isinstance(a0, ast.BinOp) and isinstance(a0.left, ast.Constant) and a0.left.value == "<") or \
                  (isinstance(a0, ast.JoinedStr) and a0.values and isinstance(a0.values[0], ast.Constant) and
                   str(a0.values[0].value).startswith("<"))
@@ -301,6 +302,49 @@ def _slice_bounds(n: ast.Subscript, ivar: Optional[str]) -> Optional[Tuple[sym.R
     if isinstance(n.slice, ast.Slice) and n.slice.lower is not None and n.slice.upper is not None:
         return sym.canon(n.slice.lower), sym.canon(n.slice.upper)
     return None
+
+
+def _unpack_from_fields(M, mod, fn_node):
+    """`a, b, c = S.unpack_from(buf, OFF)` with S a module-level `Struct("<hBc")` (or `Struct("<hBc").unpack_from(..)`, or
+    `unpack_from("<hBc", buf, OFF)`): {name: (format of the field, lower bound, upper bound, node)} — field k sits at OFF + the
+    size of the fields before it.  The bounds are formulas over whatever names OFF mentions (the event index)."""
+    out = {}
+
+    def fmt_of(e):
+        if isinstance(e, ast.Call) and call_name(e) == "Struct" and len(e.args) == 1 and isinstance(e.args[0], ast.Constant) and isinstance(e.args[0].value, str):
+            return e.args[0].value
+        if isinstance(e, ast.Name):
+            ds = [st.value for st in M.mods[mod].tree.body if isinstance(st, ast.Assign) and len(st.targets) == 1 and isinstance(st.targets[0], ast.Name) and
+                  st.targets[0].id == e.id]
+            if len(ds) == 1:
+                return fmt_of(ds[0])
+        return None
+    for n in ast.walk(fn_node):
+        if not (isinstance(n, ast.Assign) and len(n.targets) == 1 and isinstance(n.value, ast.Call) and call_name(n.value) == "unpack_from"):
+            continue
+        c = n.value
+        fmt = buf = off = None
+        if isinstance(c.func, ast.Attribute) and fmt_of(c.func.value) is not None and 1 <= len(c.args) <= 2:
+            fmt, buf, off = fmt_of(c.func.value), c.args[0], (c.args[1] if len(c.args) == 2 else ast.Constant(value=0))
+        elif len(c.args) in (2, 3) and isinstance(c.args[0], ast.Constant) and isinstance(c.args[0].value, str):
+            fmt, buf, off = c.args[0].value, c.args[1], (c.args[2] if len(c.args) == 3 else ast.Constant(value=0))
+        for k in c.keywords:
+            if k.arg == "offset":
+                off = k.value
+        if fmt is None or fmt[:1] not in "<>=!" or not all(ch in "xcbB?hHiIlLqQefdsp" for ch in fmt[1:]):
+            continue
+        t = n.targets[0]
+        names = [x.id if isinstance(x, ast.Name) else None for x in (t.elts if isinstance(t, ast.Tuple) else [t])]
+        if len(names) != len(fmt) - 1 or not isinstance(t, ast.Tuple):
+            continue
+        o = sym.canon(off)
+        for k, nm in enumerate(names):
+            if nm is None:
+                continue
+            lo = struct.calcsize(fmt[0] + fmt[1:1 + k])
+            hi = struct.calcsize(fmt[0] + fmt[1:2 + k])
+            out[nm] = (fmt[0] + fmt[1 + k], o + sym.parse(str(lo)), o + sym.parse(str(hi)), n)
+    return out
 
 
 def _iter_unpack_fields(fn_node):
@@ -447,6 +491,8 @@ def rule_r2(ctx) -> List[R.Inst]:
                             seen[n.targets[0].id] = (c.args[0].value, b, n)
     iu, iu_var = _iter_unpack_fields(nf.node)
     for nm_, (f_, lo_, hi_, node_) in iu.items():
+        seen.setdefault(nm_, (f_, (lo_, hi_), node_))
+    for nm_, (f_, lo_, hi_, node_) in _unpack_from_fields(M, nf.mod, nf.node).items():
         seen.setdefault(nm_, (f_, (lo_, hi_), node_))
     if iu and iv is None or (iu and iu_var):
         iv = iu_var or iv
@@ -918,7 +964,11 @@ def rule_r8(ctx) -> List[R.Inst]:
         else:
             insts.append(R.ok(rid, "sweep-cursor", file, whiles[0].lineno, idiom="offset, measure and bpm are updated together on every consuming path"))
     elif tl_ is None:
-        insts.append(R.undec(rid, "sweep-cursor", file, fn.node.lineno, f"{len(whiles)} sweep loops found"))
+        an_ = _anchor_insts(fn, rid, file, "cursor")
+        if an_ is not None:
+            insts.extend(an_)
+        else:
+            insts.append(R.undec(rid, "sweep-cursor", file, fn.node.lineno, f"{len(whiles)} sweep loops found"))
     # (b) notes take offset = table[measure], length = table[tail_measure] - offset
     asg = {}
     for n in ast.walk(fn.node):
@@ -1168,6 +1218,95 @@ def _queue_sweep(fn, sweep, wh, q, rid, file) -> Optional[List[R.Inst]]:
     return insts
 
 
+def _anchor_form(fn):
+    """two-phase form of the tempo sweep: (1) `A = [(0, 0, init_bpm)]; for b in bpms: m, o, v = A[-1]; o += step; b.offset = o;
+    A.append((b.measure, o, b.bpm))` times EVERY tempo event from the one before it; (2) `for q in note_measures: m, o, v =
+    A[bisect_right([b.measure for b in bpms], q)]` picks the state after all events at or before the note position.
+    -> dict(anchors, init, build loop, appended tuple, lookup call, lookup loop, keys expression) or None"""
+    top = fn.node.body
+    for st in top:
+        if not (isinstance(st, ast.Assign) and len(st.targets) == 1 and isinstance(st.targets[0], ast.Name) and isinstance(st.value, ast.List) and
+                len(st.value.elts) == 1 and isinstance(st.value.elts[0], ast.Tuple) and len(st.value.elts[0].elts) == 3):
+            continue
+        A = st.targets[0].id
+        build = next((l for l in top if isinstance(l, ast.For) and isinstance(l.target, ast.Name) and isinstance(l.iter, ast.Name) and
+                      any(isinstance(x, ast.Call) and call_name(x) == "append" and isinstance(x.func.value, ast.Name) and x.func.value.id == A
+                          for x in ast.walk(l))), None)
+        if build is None or any(isinstance(x, (ast.Break, ast.Continue, ast.Return, ast.If)) for x in ast.walk(build)):
+            continue
+        apps = [x for x in ast.walk(build) if isinstance(x, ast.Call) and call_name(x) == "append" and isinstance(x.func.value, ast.Name) and x.func.value.id == A]
+        if len(apps) != 1 or len(apps[0].args) != 1 or not isinstance(apps[0].args[0], ast.Tuple) or len(apps[0].args[0].elts) != 3:
+            continue
+        other_muts = [x for x in ast.walk(fn.node) if isinstance(x, ast.Call) and isinstance(x.func, ast.Attribute) and isinstance(x.func.value, ast.Name) and
+                      x.func.value.id == A and x.func.attr in ("pop", "insert", "remove", "clear", "extend", "sort", "reverse")]
+        if other_muts:
+            continue
+        look = None
+        for l in top:
+            if isinstance(l, ast.For) and l is not build and isinstance(l.target, ast.Name):
+                for x in ast.walk(l):
+                    if isinstance(x, ast.Subscript) and isinstance(x.value, ast.Name) and x.value.id == A and isinstance(x.slice, ast.Call) and \
+                            call_name(x.slice) in ("bisect_right", "bisect", "bisect_left", "searchsorted") and len(x.slice.args) >= 2:
+                        look = (l, x)
+        if look is None:
+            continue
+        keys = look[1].slice.args[0]
+        if isinstance(keys, ast.Name):
+            ds = local_defs(fn.node, keys.id)
+            keys = ds[0] if len(ds) == 1 else keys
+        return dict(A=A, init=st, build=build, app=apps[0].args[0], lookup=look[1], lookloop=look[0], keys=keys, events=build.iter.id, ev=build.target.id)
+    return None
+
+
+def _anchor_insts(fn, rid, file, which) -> Optional[List[R.Inst]]:
+    af = _anchor_form(fn)
+    if af is None:
+        return None
+    insts = []
+    ev, events = af["ev"], af["events"]
+    if which == "cursor":
+        a0, a1, a2 = af["app"].elts
+        # the state before the event: `m, o, v = A[-1]` at the top of the body
+        unp = next((x for x in af["build"].body if isinstance(x, ast.Assign) and isinstance(x.targets[0], ast.Tuple) and len(x.targets[0].elts) == 3 and
+                    unparse(x.value) == f"{af['A']}[-1]"), None)
+        ovar = unp.targets[0].elts[1].id if unp is not None and isinstance(unp.targets[0].elts[1], ast.Name) else None
+        stepped = ovar is not None and any(isinstance(x, ast.AugAssign) and isinstance(x.target, ast.Name) and x.target.id == ovar and isinstance(x.op, ast.Add)
+                                           for x in af["build"].body)
+        timed = ovar is not None and any(isinstance(x, ast.Assign) and unparse(x.targets[0]) == f"{ev}.offset" and unparse(x.value) == ovar for x in af["build"].body)
+        good = unp is not None and stepped and timed and unparse(a0) == f"{ev}.measure" and unparse(a1) == ovar and unparse(a2) == f"{ev}.bpm"
+        insts.append(R.ok(rid, "sweep-cursor", file, af["build"].lineno,
+                          idiom="position, time and tempo after each event travel together as one tuple (event.measure, advanced time, event.bpm)") if good else
+                     R.viol(rid, "sweep-cursor", file, af["build"].lineno,
+                            "the state after a tempo event must be (its position, the time advanced to it, its tempo): the next segment is "
+                            "otherwise integrated from the wrong position/tempo", construct=f"{af['A']}.append({unparse(af['app'])})"))
+        return insts
+    # which == "sweep": the merge itself
+    lk = af["lookup"].slice
+    q = af["lookloop"].target.id
+    fname = call_name(lk)
+    keys = af["keys"]
+    keys_ok = isinstance(keys, ast.ListComp) and len(keys.generators) == 1 and not keys.generators[0].ifs and unparse(keys.generators[0].iter) == events and \
+        isinstance(keys.generators[0].target, ast.Name) and unparse(keys.elt) == f"{keys.generators[0].target.id}.measure"
+    side_right = fname in ("bisect_right", "bisect") or (fname == "searchsorted" and any(k.arg == "side" and isinstance(k.value, ast.Constant) and k.value.value == "right" for k in lk.keywords))
+    probs = []
+    if not keys_ok:
+        probs.append(f"the positions searched are '{unparse(keys)[:60]}', not the positions of all tempo events in order")
+    if unparse(lk.args[1]) != q:
+        probs.append(f"the search key is '{unparse(lk.args[1])}', not the current note position '{q}'")
+    if not side_right:
+        probs.append("bisect_left stops BEFORE an event that sits exactly on the note position; it must be applied when it lies at or before it")
+    insts.append(R.viol(rid, "sweep:look-ahead", file, lk.lineno, "; ".join(probs), construct=unparse(af["lookup"])[:160]) if probs else
+                 R.ok(rid, "sweep:look-ahead", file, lk.lineno, idiom=f"state after bisect_right(event positions, {q}) events: all events at or before the note position"))
+    i0 = af["init"].value.elts[0].elts
+    first_ok = [unparse(x) for x in i0[:2]] == ["0", "0"] and unparse(i0[2]) == "init_bpm"
+    insts.append(R.ok(rid, "sweep:first", file, af["init"].lineno, idiom="the chain starts at (measure 0, 0 ms, header tempo)") if first_ok else
+                 R.viol(rid, "sweep:first", file, af["init"].lineno, "the chain of tempo events must start at measure 0, 0 ms with the header tempo",
+                        construct=unparse(af["init"])))
+    insts.append(R.ok(rid, "sweep:bounds", file, lk.lineno, idiom=f"one anchor per event plus the initial one: every index 0..len({events}) exists"))
+    insts.append(R.ok(rid, "sweep:trailing", file, af["build"].lineno, idiom=f"every event of {events} is timed by the first phase, whatever the notes are"))
+    return insts
+
+
 def rule_r10(ctx) -> List[R.Inst]:
     """the tempo sweep is a merge of two sorted sequences (note positions, tempo events): the look-ahead tests the event that
     is consumed next, inside its bounds, against the current note position; every tempo event is consumed — those after the
@@ -1183,6 +1322,9 @@ def rule_r10(ctx) -> List[R.Inst]:
         tl = _timeline_insts(fn, rid, file)
         if tl is not None:
             return tl
+        an = _anchor_insts(fn, rid, file, "sweep")
+        if an is not None:
+            return an
         return [R.undec(rid, "sweep", file, fn.node.lineno, "sweep loop (for <position> ...: while ...) not found")]
     q = sweep.target.id
     wh = next(x for x in ast.walk(sweep) if isinstance(x, ast.While))
